@@ -20,7 +20,8 @@ Symbolic = pg.Symbolic
 # Walking and addressing
 # ---------------------------------------------------------------------------
 def is_container(v):
-  return isinstance(v, (pg.Dict, pg.List, pg.Object))
+  # pg.Ref is an explicit reference: its target belongs to another tree.
+  return isinstance(v, (pg.Dict, pg.List, pg.Object)) and not isinstance(v, pg.Ref)
 
 
 def children(node):
@@ -55,6 +56,8 @@ def struct(v, depth=0):
   """Canonical structure of a value (types, key order, leaves)."""
   if depth > 10:
     return '<deep>'
+  if isinstance(v, pg.Ref):
+    return ('Ref', struct(v.value, depth + 1))
   if isinstance(v, pg.Object):
     return (type(v).__name__,) + tuple((k, struct(e, depth + 1)) for k, e in v.sym_items())
   if isinstance(v, pg.Dict):
@@ -174,6 +177,34 @@ def make_root(name):
                    value_spec=pg.typing.List(pg.typing.Dict([('x', pg.typing.Int())])))
   if name == 'smalld':
     return pg.Dict(p=pg.List([0]))
+  if name == 'typedobj':
+    return fixtures.Typed(n=1, s='a', child=N(x=pg.Dict(q=0)))
+  if name == 'rolist':
+    return pg.Dict(r=pg.List([pg.Dict(x=0), 1], accessor_writable=False),
+                   d=pg.Dict(y=pg.List([0]), accessor_writable=False))
+  if name == 'dict_sealed':
+    return pg.Dict(a=pg.Dict(x=0), b=pg.List([1]), sealed=True)
+  if name == 'list_sealed':
+    return pg.List([pg.Dict(x=0), 1], sealed=True)
+  if name == 'obj_sealed':
+    return N(x=N(x=1), items=[{'k': 0}], sealed=True)
+  if name == 'list_ro':
+    return pg.List([pg.Dict(x=0), pg.List([1], accessor_writable=False)], accessor_writable=False)
+  if name == 'dict_ro':
+    return pg.Dict(a=pg.Dict(x=0, accessor_writable=False), accessor_writable=False)
+  if name == 'dict_partial':
+    return pg.Dict(
+        value_spec=pg.typing.Dict([('a', pg.typing.Int()), ('b', pg.typing.Dict([('c', pg.typing.Str())]))]),
+        allow_partial=True, b={})
+  if name == 'list_partial':
+    return pg.List([{}], value_spec=pg.typing.List(pg.typing.Dict([('c', pg.typing.Str())])), allow_partial=True)
+  if name == 'obj_partial':
+    return fixtures.Req.partial(child=fixtures.Req.partial(a=1))
+  if name == 'withref':
+    target = pg.Dict(t=0)
+    return pg.Dict(own=pg.Dict(x=0), r=pg.Ref(target), l=pg.List([pg.Ref(target)]))
+  if name == 'withleaf':
+    return pg.Dict(l=fixtures.Leaf(1), n=pg.List([fixtures.Leaf(2), pg.Dict(z=fixtures.Leaf(3))]))
   if name == 'none':
     return None
   raise ValueError(name)
@@ -406,6 +437,10 @@ def _do(world, node, mode, kind, ri, keys, args):
     if mode == 'noparents':
       kw['notify_parents'] = False
     return node.rebind({_kp(k): mk(v) for k, v in args[0]}, raise_on_no_change=False, **kw)
+  if kind == 'rebind_deep':
+    return node.rebind({pg.KeyPath(list(k)): mk(v) for k, v in args[0]}, raise_on_no_change=False)
+  if kind == 'delattr':
+    return delattr(node, args[0])
   if kind == 'append':
     return node.append(mk(args[0]))
   if kind == 'insert':
